@@ -7,20 +7,6 @@ import importlib, os, glob
 PROPS = {}
 NOT_CLAIMED = {}
 
-PROPS["C09"] = dict(
-    module="M3d.Props.C09",
-    corr=dict(quick=300, thorough=4000),
-    corr_theorems="M3d.C09.fastmap_refines_map (maps) / M3d.C09.query_eq_fresh (mesh queries); derived meshes are specified directly from the face set",
-    rule="operation histories (1-40 ops) on real CoordToSlice/CoordToNumber (3D, 2D) and *model3d.Mesh over a key pool with signed-zero variants and hash-colliding coordinates found by search on the real hash; distinct = distinct operation lines",
-    trusted=[
-        "modelled, not verified: Go maps as duplicate-free association lists; face pointers as ids; key identity = Go == on coordinates (NaN excluded)",
-        "the hypothesis 'hash is a function of the key as compared by ==' is evaluated on the real fastHash64 for every key of the pool (signed zeros) on every run",
-    ],
-    assumptions=["NaN coordinates are excluded (Go maps never find them either)"],
-    level_text="Theorems (Lean 4, all histories, all hash functions, all value types): the fast coordinate-keyed map observably equals an ordinary map over every finite Store/Delete/Load/Len history, the fast->slow switch is one-way and content-preserving. The model is tied to /repo by replaying random histories with real colliding and signed-zero keys on the real maps and meshes and diffing against the model; derived meshes (Copy/DeepCopy/MapCoords/InvertNormals) are compared with their specification.",
-    level_note="Proved about the model in lean/M3d/Model/FastMap.lean; Mesh index bookkeeping is modelled (lean/M3d/Model/Mesh.lean) and tied by correspondence. Trusted: Lean kernel, propext/Quot.sound, the Go harness and driver, Go maps ~ association lists. In-place editors (mcSearch, FlattenBase, eliminateSegment) are exercised under C10, not here.",
-)
-
 for _f in sorted(glob.glob(os.path.join(os.path.dirname(__file__), "props_c[0-9][0-9].py"))):
     _m = importlib.import_module(os.path.basename(_f)[:-3])
     _pid = os.path.basename(_f)[6:-3].upper()
